@@ -65,6 +65,7 @@ def with_clocks(fen, hmc, fmn, plies=1):
 
 HMCS = [0, 1, 49, 50, 99, 100, 127, 128, 129, 255, 1000, 4094]
 FMNS = [1, 2, 100, 2400, 65535, 1000000]
+BIG_HMCS = [4096, 5000, 8191, 8192, 65535, 65536, 262143, 262144, 300000, 1048576, 16777215, 16777216, 134217727, 134217728, 536870912, 999999998]
 
 
 def cases_for(prop, tier, roots, rng, wd=None):
@@ -126,6 +127,16 @@ def cases_for(prop, tier, roots, rng, wd=None):
             n = 300 if T else 100
             add(with_clocks(r["fen"], rng.choice([90, 120, 300, 3900]), rng.choice(FMNS), n),
                 [{"op": "walk", "plies": n, "seed": rng.randrange(1 << 30)}], "long game, high clocks")
+        # any clock: every emitted move made once on a fresh board (no probe, no unmake: the 12-bit undo field of C03 plays no part)
+        for r in pick(roots, 40 if T else 10):
+            for h in (BIG_HMCS if T else pick(BIG_HMCS, 3)):
+                f = r["fen"].split(" ")
+                add(" ".join(f[:4] + [str(h), str(rng.choice(FMNS))]), [{"op": "bare_all"}], "bare make at any half-move clock")
+        # the usual way of playing a move: by its text, the board probing legality itself before it makes the move
+        for r in pick(roots, 40 if T else 10):
+            n = 120 if T else 40
+            add(with_clocks(r["fen"], rng.choice(HMCS), rng.choice(FMNS), n),
+                [{"op": "walk_uci", "plies": n, "seed": rng.randrange(1 << 30)}], "game played through make_uci, arbitrary clocks")
     elif prop == "C03":
         for r in roots:
             add(r["fen"], [{"op": "dfs", "depth": 1}], "make/unmake of every emitted move, legal or not")
@@ -164,6 +175,10 @@ def cases_for(prop, tier, roots, rng, wd=None):
             n = 300 if T else 100
             add(with_clocks(r["fen"], rng.choice(HMCS), rng.choice(FMNS), n),
                 [{"op": "walk", "plies": n, "seed": rng.randrange(1 << 30)}], "random game, arbitrary clocks")
+        # the hash does not depend on the clocks: deltas of every emitted move at any half-move clock (bare makes on fresh boards)
+        for r in pick(roots, 24 if T else 6):
+            f = r["fen"].split(" ")
+            add(" ".join(f[:4] + [str(rng.choice(BIG_HMCS)), str(rng.choice(FMNS))]), [{"op": "bare_all"}], "hash deltas at any half-move clock")
     else:
         raise ToolError("no board case mix for " + prop)
     return cases
@@ -422,6 +437,16 @@ def text_cases(prop, tier, roots, rng, wd):
     if prop == "C13":
         for r in rng.sample(roots, min(len(roots), 40 if T else 10)):
             add(r["fen"], [{"op": "uci_batch"}, {"op": "gen"}], "all 64x64x6 move strings")
+        # the same calls at arbitrary clocks: a rejected call restores the clocks too, an accepted one counts them on
+        for fen in rng.sample(fens, min(len(fens), 60 if T else 16)):
+            g = gen[fen]
+            if not g["wf"]:
+                continue
+            muts = uci_mutations(rng, g["legal"], g["illegal"])
+            ops = [{"op": "find_uci", "s": x} for x in g["illegal"][:6] + rng.sample(muts, min(len(muts), 6))]
+            ops += [{"op": "make_uci", "s": x} for x in g["illegal"][:6] + ["zz"]]
+            ops += [{"op": "walk_uci", "plies": 12, "seed": rng.randrange(1 << 30)}]
+            add(with_clocks(fen, rng.choice(HMCS), rng.choice(FMNS), 14), ops, "rejected and accepted calls at arbitrary clocks")
     else:
         for r in (roots if T else rng.sample(roots, min(len(roots), 36))):
             add(r["fen"], [{"op": "dfs", "depth": 1, "mode": "san"}], "SAN at the root and after every move")
@@ -439,8 +464,10 @@ def case_weight(c):
         k = op["op"]
         if k == "dfs":
             w += 35 ** op["depth"]
-        elif k in ("walk", "line"):
+        elif k in ("walk", "line", "walk_uci"):
             w += op["plies"] * 2
+        elif k == "bare_all":
+            w += 70
         elif k == "perft":
             w += 35 ** op["depth"]
         elif k == "uci_batch":
@@ -467,7 +494,7 @@ def run_board_cases(prop, cases, wd, keys, nshards=None):
 
 
 EVAL_EVENTS = {
-    "C01": ("gen", "perft"), "C02": ("make",), "C03": ("unmake", "gen", "perft", "san_all"),
+    "C01": ("gen", "perft"), "C02": ("make", "make_uci", "bare_done"), "C03": ("unmake", "gen", "perft", "san_all"),
     "C05": ("gen", "make"), "C06": ("gen", "make", "unmake", "load"),
     "C13": ("find_uci", "make_uci", "make_all_uci", "uci_to_pgn", "pgn_to_bb", "uci_batch"),
     "C14": ("san_all", "pgn_to_bb", "uci_to_pgn"),
